@@ -10,6 +10,7 @@ package main
 //   c14posat_*.v  the same Go positions vs Positions.pos_at on the whole-input
 //                 segmentation: the property's position oracle, in Coq
 //   c14rs_*.v     (sub-command c14rs) RangeScanner ranges vs Positions.range_scanner
+//   c14id_*.v     (sub-command c14id) hclsyntax.ValidIdentifier vs the identOnly scanner model
 // Direct oracle (real code only, independent of the model): tiling, recount of
 // every position with textseg, range fidelity of error-free parses.
 
@@ -29,7 +30,7 @@ import (
 )
 
 func main() {
-	hv.Main(map[string]func(*hv.RunCfg) error{"c14": runC14, "c14rs": runC14RS})
+	hv.Main(map[string]func(*hv.RunCfg) error{"c14": runC14, "c14rs": runC14RS, "c14id": runC14ID})
 }
 
 const (
@@ -901,7 +902,7 @@ var rsCorpus = []string{
 
 func runC14RS(cfg *hv.RunCfg) error {
 	rep := hv.NewReport("C14", cfg.Seed)
-	rep.Rule = "hcl.RangeScanner over generated and mutated configuration text with bufio.ScanLines, bufio.ScanWords and a k-grapheme-cluster split function; a few fragments with a non-zero start position; non-trivial = at least 2 ranges"
+	rep.Rule = "hcl.RangeScanner over generated and mutated configuration text with bufio.ScanLines, bufio.ScanWords and a k-grapheme-cluster split function; fragments with an arbitrary start position (line, column, byte); non-trivial = at least 2 ranges"
 	r := hv.NewRng(cfg.Seed, 1401)
 	cf := &hv.CaseFile{Dir: cfg.Out, Name: "c14rs",
 		Imports: "From Coq Require Import String.\nFrom HclV Require Import Base.Prelude Lex.Scanner Lex.Positions Lex.HclLex Lex.LexCheck.",
@@ -945,10 +946,10 @@ func runC14RS(cfg *hv.RunCfg) error {
 		start := hcl.InitialPos
 		fragment := false
 		if cfg.Replay == "" && i >= len(rsCorpus) && r.Chance(0.15) {
-			// a fragment: same line/column conventions, arbitrary line and column, byte 0
+			// a fragment of a larger file: arbitrary line, column and byte
 			start = hcl.Pos{Line: 1 + r.Intn(50), Column: 1 + r.Intn(20), Byte: 0}
-			if r.Chance(0.3) && len(src) > 0 {
-				start.Byte = r.Intn(len(src) + 2)
+			if r.Chance(0.6) {
+				start.Byte = r.Intn(5000)
 				fragment = true
 			}
 		}
@@ -980,7 +981,7 @@ func runC14RS(cfg *hv.RunCfg) error {
 		cls := make([]string, n)
 		rgs := make([]string, n)
 		okLen := true
-		pos := start.Byte
+		pos := 0 // sc.off
 		for k := 0; k < n; k++ {
 			results[k] = fmt.Sprintf("(%d, %d)", rec[k].adv, rec[k].tok)
 			h, ok := lenHex(clusters(src[pos : pos+rec[k].adv]))
@@ -1003,48 +1004,33 @@ func runC14RS(cfg *hv.RunCfg) error {
 			rep.Sample(in)
 		}
 
-		// direct oracle. (1) a fragment must be scanned from its first byte
+		// direct oracle. (1) the whole buffer is scanned, from its first byte,
+		// whatever the start position (all three split functions consume all input)
 		if fragment {
 			rep.Hist("fragment-with-start-byte")
-			if start.Byte > 0 && len(src) > 0 && (n == 0 || !bytes.HasPrefix(src, toks[0]) || ranges[0].Start != start || start.Byte >= len(src)) {
-				got := "no ranges"
-				if n > 0 {
-					got = fmt.Sprintf("first token %q", toks[0])
-				}
-				rep.Fail(hv.Failure{Kind: "rangescanner-fragment-start-byte",
-					Detail: fmt.Sprintf("NewRangeScannerFragment with start.Byte=%d over a %d-byte buffer: %s (the start byte is used as an index into the fragment)", start.Byte, len(src), got), Input: in})
-				rep.Hist("oracle-fail:rangescanner-fragment-start-byte")
-			}
+		}
+		if len(src) > 0 && (n == 0 || ranges[0].Start != start || pos != len(src)) {
+			rep.Fail(hv.Failure{Kind: "tokens-overlap-or-gap",
+				Detail: fmt.Sprintf("RangeScanner with start %d:%d@%d over a %d-byte buffer visited %d ranges covering %d bytes", start.Line, start.Column, start.Byte, len(src), n, pos), Input: in})
+			rep.Hist("oracle-fail:tokens-overlap-or-gap")
 			continue
 		}
 		// (2) every Start/End equals the recount under the lexer's (= the
 		// property's) convention, up to the first misaligned boundary
-		canon := recount(src, start, false)
-		canonRS := recount(src, start, true)
+		canon := recount(src, start, false) // keyed by offset into src
 		okAll := true
 		for k := 0; k < n; k++ {
 			rg := ranges[k]
 			bad := ""
 			for _, p := range []hcl.Pos{rg.Start, rg.End} {
-				want, aligned := canon[p.Byte]
+				want, aligned := canon[p.Byte-start.Byte]
 				if !aligned {
 					bad = "misaligned"
 					break
 				}
 				if want != p {
-					wantRS := canonRS[p.Byte]
-					loneCR := false
-					for q := 0; q < p.Byte && q < len(src); q++ {
-						if src[q] == '\r' && (q+1 >= len(src) || src[q+1] != '\n') {
-							loneCR = true
-						}
-					}
-					kind := "position-differs-from-recount"
-					if wantRS == p && loneCR {
-						kind = "rangescanner-lone-cr"
-					}
-					rep.Fail(hv.Failure{Kind: kind, Detail: fmt.Sprintf("range %d: %d:%d@%d, recount (newline = LF or CRLF) %d:%d@%d", k, p.Line, p.Column, p.Byte, want.Line, want.Column, want.Byte), Input: in})
-					rep.Hist("oracle-fail:" + kind)
+					rep.Fail(hv.Failure{Kind: "position-differs-from-recount", Detail: fmt.Sprintf("range %d: %d:%d@%d, recount (newline = LF or CRLF) %d:%d@%d", k, p.Line, p.Column, p.Byte, want.Line, want.Column, want.Byte), Input: in})
+					rep.Hist("oracle-fail:position-differs-from-recount")
 					bad = "fail"
 					break
 				}
@@ -1059,13 +1045,14 @@ func runC14RS(cfg *hv.RunCfg) error {
 			// the range slices the buffer to the token (RangeScanner assumes
 			// that the token starts where the advance starts; bufio.ScanWords
 			// skips leading blanks, which is recorded but not judged here)
+			so, eo := rg.Start.Byte-start.Byte, rg.End.Byte-start.Byte
 			if !rec[k].prefix {
 				rep.Hist("rs:token-not-at-start-of-advance")
-			} else if _, ok := canon[rg.Start.Byte+len(toks[k])]; !ok {
+			} else if _, ok := canon[so+len(toks[k])]; !ok {
 				// the token ends inside a grapheme cluster: documented limitation
 				rep.Hist("pos:some-boundary-inside-a-cluster")
-			} else if !bytes.Equal(src[rg.Start.Byte:rg.End.Byte], toks[k]) {
-				rep.Fail(hv.Failure{Kind: "token-bytes-differ", Detail: fmt.Sprintf("range %d slices to %q, token is %q", k, src[rg.Start.Byte:rg.End.Byte], toks[k]), Input: in})
+			} else if so < 0 || eo > len(src) || so > eo || !bytes.Equal(src[so:eo], toks[k]) {
+				rep.Fail(hv.Failure{Kind: "token-bytes-differ", Detail: fmt.Sprintf("range %d [%d:%d] does not slice the buffer to the token %q", k, so, eo, toks[k]), Input: in})
 				rep.Hist("oracle-fail:token-bytes-differ")
 				okAll = false
 				break
@@ -1081,6 +1068,116 @@ func runC14RS(cfg *hv.RunCfg) error {
 	}
 	rep.CaseFiles = names
 	sub := filepath.Join(cfg.Out, "rs")
+	if err := os.MkdirAll(sub, 0o755); err != nil {
+		return err
+	}
+	return rep.Write(sub)
+}
+
+// ---- identOnly scanner (hclsyntax.ValidIdentifier) ----------------------------------------
+
+// randomRune draws code points from the ranges where ID_Start / ID_Continue
+// change most often, plus the whole BMP and the astral planes.
+func randomRune(r *hv.Rng) rune {
+	switch r.Intn(10) {
+	case 0, 1:
+		return rune(0x20 + r.Intn(0x5f)) // ASCII
+	case 2:
+		return rune(0x80 + r.Intn(0x780)) // Latin-1 .. Arabic
+	case 3:
+		return rune(0x800 + r.Intn(0x2800)) // Indic scripts .. punctuation
+	case 4:
+		return rune(0x3000 + r.Intn(0xa000)) // CJK
+	case 5:
+		return rune(0xd000 + r.Intn(0x3000)) // Hangul end, surrogates (become U+FFFD), private use, compatibility forms
+	case 6:
+		return rune(0x10000 + r.Intn(0x10000)) // SMP
+	case 7:
+		return rune(0x20000 + r.Intn(0xf0000)) // SIP .. plane 16
+	case 8:
+		return []rune{'_', '-', '0', '9', 'a', 'Z', 0x0301, 0x200d, 0xb7, 0x387, 0x1369, 0x19da, 0x2118, 0x212e, 0x309b, 0xfeff}[r.Intn(16)]
+	default:
+		return rune(r.Intn(0x110000))
+	}
+}
+
+func runC14ID(cfg *hv.RunCfg) error {
+	rep := hv.NewReport("C14", cfg.Seed)
+	rep.Rule = "hclsyntax.ValidIdentifier (the identOnly scanner) on strings of 1..5 random code points drawn from all planes, raw byte strings with invalid UTF-8, and identifier-like words; 20 strings per generated case unit; non-trivial = contains a non-ASCII byte"
+	r := hv.NewRng(cfg.Seed, 1402)
+	cf := &hv.CaseFile{Dir: cfg.Out, Name: "c14id",
+		Imports: "From Coq Require Import String.\nFrom HclV Require Import Base.Prelude Lex.Scanner Lex.Positions Lex.HclLex Lex.LexCheck.",
+		Ctype:   "string * bool", Checker: "check_ident_cases"}
+	var ins []string
+	if cfg.Replay != "" {
+		b, err := os.ReadFile(cfg.Replay)
+		if err != nil {
+			return err
+		}
+		ins = []string{string(b)}
+	} else {
+		ins = append(ins, "a", "_", "-", "a-b", "a b", "", "1a", "a1", "\xc4A", "\xef\xbb\xbfa", "é", "e\u0301", "\u0301", "a\xff", "\xffa", "a\n", "日本語", "a·b", "℘", "_-_")
+		for i := 0; i < cfg.N*20; i++ {
+			var sb strings.Builder
+			switch r.Intn(6) {
+			case 0: // raw bytes
+				n := 1 + r.Intn(4)
+				for k := 0; k < n; k++ {
+					sb.WriteByte(byte(r.Intn(256)))
+				}
+			case 1: // identifier-like prefix, then one random rune
+				sb.WriteString(r.Pick("a", "_", "foo", "x1", "é"))
+				sb.WriteRune(randomRune(r))
+			default:
+				n := 1 + r.Small(4)
+				for k := 0; k < n; k++ {
+					sb.WriteRune(randomRune(r))
+				}
+			}
+			ins = append(ins, sb.String())
+		}
+	}
+	for _, s := range ins {
+		var got bool
+		var panicked any
+		func() {
+			defer func() { panicked = recover() }()
+			got = hclsyntax.ValidIdentifier(s)
+		}()
+		if panicked != nil {
+			rep.Fail(hv.Failure{Kind: "panic", Detail: fmt.Sprintf("ValidIdentifier panicked: %v", panicked), Input: s})
+			continue
+		}
+		cf.Add(fmt.Sprintf("(%s, %s)", hv.Hexs([]byte(s)), hv.CoqBool(got)))
+		rep.Idx(s)
+		nonASCII := false
+		for i := 0; i < len(s); i++ {
+			if s[i] >= 0x80 {
+				nonASCII = true
+			}
+		}
+		rep.Count(s, nonASCII)
+		if got {
+			rep.Hist("valid-identifier")
+		} else {
+			rep.Hist("not-an-identifier")
+		}
+		// direct oracle: s is a valid identifier iff the main scanner (same
+		// Ident rule) yields exactly one Ident token covering ALL of s — a
+		// leading BOM, which the scanner skips, is not part of an identifier
+		toks, _ := hclsyntax.LexConfig([]byte(s), "f", hcl.InitialPos)
+		asConfig := len(toks) == 2 && toks[0].Type == hclsyntax.TokenIdent && toks[1].Type == hclsyntax.TokenEOF && len(toks[0].Bytes) == len(s)
+		if asConfig != got {
+			rep.Fail(hv.Failure{Kind: "token-bytes-differ", Detail: fmt.Sprintf("ValidIdentifier = %v but LexConfig yields one identifier token covering the whole string = %v", got, asConfig), Input: s})
+			rep.Hist("oracle-fail:token-bytes-differ")
+		}
+	}
+	names, err := cf.Flush(4000)
+	if err != nil {
+		return err
+	}
+	rep.CaseFiles = names
+	sub := filepath.Join(cfg.Out, "id")
 	if err := os.MkdirAll(sub, 0o755); err != nil {
 		return err
 	}
